@@ -1,31 +1,32 @@
 import QR.Gen.Fingerprints
 /-
-Pinned fingerprints (tools/pin_fingerprints.py; committed): per property, the hash over the normalised ASTs of the Python
-functions its hand-written model mirrors (list: tools/modelled_functions.json), as they were when the model was written and
-validated.  `Cxx_source_fingerprints` states that /repo's working tree still has exactly these: the theorems are about a
-model of THIS source.  Which function changed is reported by ./check from corpus/fingerprints_baseline.json.
+Pinned fingerprints (tools/pin_fingerprints.py; committed): per property, the hash over the normalised ASTs of the parts of
+the qrcode package in the property's static slice (tools/slicer.py: closure of the functions its model mirrors and of its
+entry points, tools/modelled_functions.json, under 'can refer to', minus its cut parts), as they were when the model was
+written and validated.  `Cxx_source_fingerprints` states that /repo's working tree still has exactly these: the theorems are
+about a model of THIS source.  Which part changed is reported by ./check from corpus/fingerprints_baseline.json.
 -/
 namespace QR.Pinned
 
-def fp_C01 : Nat := 0x13656121896c322
-def fp_C02 : Nat := 0x4c3fc725a8fbb62
-def fp_C03 : Nat := 0xce40a309eb55531
-def fp_C04 : Nat := 0x42c3aef760a2a42
-def fp_C05 : Nat := 0xbd54c076ae45f60
-def fp_C06 : Nat := 0xaca89e7dbdd8610
-def fp_C07 : Nat := 0x2790ba17dc1ffc7
-def fp_C08 : Nat := 0xaca89e7dbdd8610
-def fp_C09 : Nat := 0xbd54c076ae45f60
-def fp_C10 : Nat := 0xbd54c076ae45f60
-def fp_C11 : Nat := 0x1188e6b527ea9b3
-def fp_C12 : Nat := 0x294882939dbc205
-def fp_C13 : Nat := 0xb26eb5ca71e5dbd
-def fp_C14 : Nat := 0x1b016f1c8a0d958
-def fp_C15 : Nat := 0xea1cddeaa1efee1
-def fp_C16 : Nat := 0xea1cddeaa1efee1
-def fp_C17 : Nat := 0xcd82004b311aef6
-def fp_C18 : Nat := 0xe798d7e3e4c574c
-def fp_C19 : Nat := 0x708e599956bc737
-def fp_C20 : Nat := 0xff2882cd9d961b1
+def fp_C01 : Nat := 0x5fce9f4ab1fb9aa
+def fp_C02 : Nat := 0xc2c07b3f87c66ad
+def fp_C03 : Nat := 0x7ea03f23e59dfb9
+def fp_C04 : Nat := 0x7fb4d713af62556
+def fp_C05 : Nat := 0x7fb4d713af62556
+def fp_C06 : Nat := 0x5c7740011eaef5f
+def fp_C07 : Nat := 0x71ec5ecaffa1d30
+def fp_C08 : Nat := 0xe13d432a7dba314
+def fp_C09 : Nat := 0x1f42bce0812fc34
+def fp_C10 : Nat := 0xd0e160935a1ccbd
+def fp_C11 : Nat := 0x7ea03f23e59dfb9
+def fp_C12 : Nat := 0xb98d07d069f2aa0
+def fp_C13 : Nat := 0x0b5c95f9d21acb8
+def fp_C14 : Nat := 0x4d6c936003bad7e
+def fp_C15 : Nat := 0xab8443408111eb9
+def fp_C16 : Nat := 0x6af7802da213456
+def fp_C17 : Nat := 0xcb05b91cb0198af
+def fp_C18 : Nat := 0x48560da9956e7f4
+def fp_C19 : Nat := 0x97c3f4782fae3e8
+def fp_C20 : Nat := 0xb525623edb944d7
 
 end QR.Pinned
